@@ -201,13 +201,16 @@ def listStep (env : Env) (l : TList) : ListOp → TList × Option E
     match normIndex l.items.length i with
     | none => (l, some .index)                                            -- 566
     | some _ => listPrim env l i false v
-  | .setslice start stop step vs =>                                       -- 543-564
+  | .setslice start stop step vs =>                                       -- 553-592
+    let (s, e) := sliceAdjust l.items.length start stop step
+    let size := rangeLen s e step
+    -- an extended slice of the wrong size is refused before any value is formalized (556-562)
+    if step != 1 && size != vs.length then (l, some .value)
+    else
     -- every replacement is formalized before anything is stored
     match vs.mapM (formalize env l) with
     | .error e => (l, some e)
     | .ok reps =>
-      let (s, e) := sliceAdjust l.items.length start stop step
-      let size := rangeLen s e step
       if step == 1 then
         primLoop env l s 1
           ((reps.take size).map (fun r => (false, r)) ++ (reps.drop size).map (fun r => (true, r))
